@@ -17,6 +17,8 @@ import (
 
 type brWorld struct {
 	ci      int
+	badIdx  int    // actor whose stored vote key is 96 bytes that are not a curve point (-1: none)
+	badKey  []byte
 	e       *Env
 	r       *Rng
 	st      *Stats
@@ -122,9 +124,21 @@ func setupBridge(r *Rng, st *Stats, ci int) *brWorld {
 	accepted0 := r.Bool()
 	must(k.Relayer.Set(e.Ctx, relayertypes.Relayer{Epoch: epoch0, Proposer: members[0].AddrStr, Voters: vs, LastElected: w.now, ProposerAccepted: accepted0}))
 	var voterInit, book, accounts []string
+	w.badIdx = -1
+	if nMembers >= 3 && r.Chance(12) {
+		// genesis validation only checks the length of a vote key: one voter's key does not decompress
+		w.badIdx = members[1+r.Intn(nMembers-1)].Idx
+		w.badKey = r.Bytes(96)
+		w.badKey[0] = 0xff
+		st.Count("world-with-an-undecodable-vote-key")
+	}
 	for _, m := range members {
-		must(k.Voters.Set(e.Ctx, m.AddrStr, relayertypes.Voter{Address: m.Addr, VoteKey: m.BlsPub, Height: 1, Status: relayertypes.VOTER_STATUS_ACTIVATED}))
-		voterInit = append(voterInit, cTuple(cAddr20(m.Addr), cTuple(fmt.Sprint(m.Idx), "1")))
+		key, keyID := m.BlsPub, fmt.Sprint(m.Idx)
+		if m.Idx == w.badIdx {
+			key, keyID = w.badKey, fmt.Sprint(900+m.Idx) // nobody can sign for it
+		}
+		must(k.Voters.Set(e.Ctx, m.AddrStr, relayertypes.Voter{Address: m.Addr, VoteKey: key, Height: 1, Status: relayertypes.VOTER_STATUS_ACTIVATED}))
+		voterInit = append(voterInit, cTuple(cAddr20(m.Addr), cTuple(keyID, "1")))
 		acc := e.Acc.NewAccountWithAddress(e.Ctx, sdk.AccAddress(m.Addr))
 		e.Acc.SetAccount(e.Ctx, acc)
 		accounts = append(accounts, cAddr20(m.Addr))
@@ -237,6 +251,37 @@ func (w *brWorld) genVote(method string, data []byte) (*relayertypes.Votes, stri
 	for _, m := range sp.Marks {
 		sp.Signers = append(sp.Signers, w.memberIdx(rel.Voters[m]))
 	}
+	if w.badIdx >= 0 {
+		pb := -1
+		for i, a := range rel.Voters {
+			if w.memberIdx(a) == w.badIdx {
+				pb = i
+			}
+		}
+		if pb >= 0 {
+			has := false
+			for _, m := range sp.Marks {
+				has = has || m == pb
+			}
+			if !has && r.Bool() {
+				if len(sp.Marks) > 0 {
+					sp.Marks[len(sp.Marks)-1] = pb
+				} else {
+					sp.Marks = append(sp.Marks, pb)
+				}
+				has = true
+			}
+			sp.Signers = []int{propIdx} // the holder of an undecodable key cannot sign
+			for _, m := range sp.Marks {
+				if m != pb {
+					sp.Signers = append(sp.Signers, w.memberIdx(rel.Voters[m]))
+				}
+			}
+			if has {
+				w.st.Count("vote:marks-the-undecodable-key-voter")
+			}
+		}
+	}
 	proposerStr := rel.Proposer
 	docSeq, docEpoch, docMethod, docData, docChain := seq, rel.Epoch, method, data, ChainID
 	variant := "honest"
@@ -250,12 +295,14 @@ func (w *brWorld) genVote(method string, data []byte) (*relayertypes.Votes, stri
 		}
 		if need >= 2 && len(sp.Marks) >= need-1 {
 			sp.Marks = sp.Marks[:need-2]
-			sp.Signers = sp.Signers[:need-1]
+			if len(sp.Signers) > need-1 {
+				sp.Signers = sp.Signers[:need-1]
+			}
 		}
 	case x < 65:
 		variant = "marks-beyond-voters" // marks that denote nobody stand in for signatures
 		extra := 1 + r.Intn(3)
-		if len(sp.Marks) >= extra {
+		if len(sp.Marks) >= extra && len(sp.Signers) > extra {
 			sp.Marks = sp.Marks[:len(sp.Marks)-extra]
 			sp.Signers = sp.Signers[:len(sp.Signers)-extra]
 		}
